@@ -212,6 +212,33 @@ P("C04",
   assumptions=["segments that share a y share an orientation (by construction, as Circuit::report() requires)"])
 
 
+P("C02",
+  rc={"quick": (12, 2500, 100, 8), "thorough": (14, 40000, 100, 16)},
+  exh={"quick": 4, "thorough": 16},
+  budget={"quick": 150, "thorough": 1500},
+  rule=CIRCUIT_RULE + "Layer (a): legalize on a copy; where it returns, placeDetailed with an observing callback must "
+       "return, every Detailed callback state and the result must satisfy the C01 legality predicate, multi-row cells "
+       "keep x/y/orientation from the first callback on. Layer (b): DetailedPlacer on the legalized circuit driven by a "
+       "generated history of 1..12 runSwaps/runInserts/runShifts/runReordering calls with arbitrary windows, exported and "
+       "judged after each. non-trivial = (a) >= 2 callbacks and some cell moved, (b) value() changed; distinct = hash of "
+       "circuit (and pass count). Layer (c), exhaustive: every sequence of swap/insert operations up to depth 3 (4) from "
+       "every legal initial placement of <= 3 (4) cells of width 1..2 (3) in three row configurations: canSwap/canInsert "
+       "true => the operation succeeds and an independent structural predicate holds, false => it throws and changes nothing.",
+  assumptions=["runShifts is driven with maxNbCells >= 2 and runReordering with nbRows >= 1, the guards of their only caller",
+               "insert(c,row,pred) is driven with pred = -1 or a cell of that row"])
+
+
+P("C05",
+  rc={"quick": (12, 3000, 100, 8), "thorough": (14, 40000, 100, 16)},
+  budget={"quick": 150, "thorough": 1500},
+  rule=CIRCUIT_RULE + "Layer (a): Circuit::hpwl() recorded at every Detailed callback of placeDetailed and at return must "
+       "be non-increasing and end at or below the value after legalize alone on an identical copy. Layer (b): "
+       "DetailedPlacer on the legalized circuit driven by 1..12 generated passes: value() never increases, equals hpwl() "
+       "of the exported placement while no orientation changed, and equals hpwl() after construction. non-trivial = the "
+       "wirelength strictly decreased at least once and a net of degree >= 3 exists; distinct = hash of the circuit.",
+  assumptions=["Circuit::hpwl() is the measure (C09 pins it to geometry)"])
+
+
 # ----------------------------------------------------------------------------
 def sh(cmd, **kw):
     return subprocess.run(cmd, stdout=subprocess.PIPE, stderr=subprocess.STDOUT, text=True, **kw)
